@@ -8,4 +8,8 @@ import "github.com/jf-tech/omniparser/verifyield"
 // Instrumented is true in builds against the instrumented scratch copy of the repository.
 const Instrumented = true
 
-func init() { verifyield.Hook = SoftYield }
+func init() {
+	verifyield.Hook = SoftYield
+	verifyield.LockHook = NoteLocked
+	verifyield.UnlockHook = NoteUnlocked
+}
